@@ -187,3 +187,12 @@ def check(ctx):
     # kinds injected
     for fid, kind in (("may::io::sys::timeout_handler", "TimedOut"),):
         pass
+    # every resumer obtains the coroutine by take() from a shared slot: the slot's API admits no second owner
+    ms = set()
+    for im in ctx.prog.impls:
+        if norm(im.get("self_adt") or "") == "may::sync::atomic_option::AtomicOption" and not im.get("trait"):
+            ms |= set(m["n"] for m in im["methods"])
+    ok = ms == {"none", "some", "store", "take", "clear"}
+    ctx.ob("R-API", "may::sync::atomic_option::AtomicOption", "surface", ok,
+           "AtomicOption exposes exactly {none, some, store, take, clear}: unpark, timer and cancel cannot both resume the coroutine" if ok else
+           "AtomicOption's inherent API is %s: an accessor beyond move-in/move-out lets two resumers obtain the same coroutine" % sorted(ms), None)
